@@ -79,6 +79,25 @@ let predict (c : string) (obs : string) : string * string * bool =
          | Some b -> Printf.sprintf "want %d delivered (cyclic prefix), closed, run ok" b
          | None -> "want cyclic prefix, closed and prompt return after cancel") in
       (pred, verdict (ocount = List.length obs_ids && ok) why, (lim > 0 || pas > 0) && n >= 1)
+  | ["engine"; kind; pre; lim; pas; n; _inst] ->
+      let n = int_of_string n and lim = int_of_string lim and pas = int_of_string pas in
+      let es = List.init n (fun i -> { e_tag = nat_of_int i; e_id = nat_of_int i }) in
+      let cf = { limit = nat_of_int lim; passes = nat_of_int pas; chosen = [] } in
+      let k = kind_of kind (pre = "1") in
+      let bnd = (match bound cf.limit cf.passes (nat_of_int n) with Some b -> int_of_nat b | None -> 0) in
+      let r = run k cf es None (nat_of_int (50 * (bnd + n + 2))) in
+      let l = List.sort compare (List.map int_of_nat (ids r.delivered)) in
+      (* the engine finishes successfully iff the provider ends Ok with its sink closed *)
+      let pred = Printf.sprintf "%d %s %s %s" (List.length l) (seq_string l)
+          (if r.out = Ok && r.closed then "ok" else if r.closed then "err:" ^ out_class r.out else "hang")
+          (if r.closed then "1" else "0") in
+      let oshots, oseq, ores, owait =
+        (match split_blank obs with [a; b; c; d] -> (int_of_string a, b, c, d) | _ -> (0, "-", "?", "?")) in
+      let obs_ids = if oseq = "-" then [] else List.map int_of_string (String.split_on_char ',' oseq) in
+      let ok = spec_b cf.limit cf.passes es None false (List.map nat_of_int obs_ids) (owait = "1")
+          (if ores = "ok" then ROk else RErr) in
+      (pred, verdict (oshots = List.length obs_ids && ok)
+         (Printf.sprintf "want %d shots (one per ammo of the cyclic prefix), Engine.Run nil, Engine.Wait returns" bnd), true)
   | _ -> ("unknown-case", "BAD:unknown-case", false)
 
 let () = run_cases predict
